@@ -205,6 +205,7 @@ out:
 enum { H_VALID_INFO = 0, H_VALID_NAME, H_WRONG_DEPTH, H_WRONG_INDEX, H_WRONG_OLD, H_UNKNOWN_TYPE, H_CHAIN1, H_CHAIN2, H_COMPLEX, H_VALID_MEM, H_NENTRIES };
 static const char *HNAME[] = { "valid-info", "valid-name", "wrong-depth", "wrong-index", "wrong-old-value", "unknown-type", "chain a->b", "chain b->c", "too-complex", "valid-memory" };
 
+static hwloc_uint64_t MK_MEM0; static int MK_MEM0_SET;   /* the memory entry always goes from the base topology's value to 4096*7, whatever t holds when the entry is built */
 static hwloc_topology_diff_t mk_entry(hwloc_topology_t t, int k)
 {
   hwloc_topology_diff_t d = calloc(1, sizeof(*d));
@@ -221,7 +222,7 @@ static hwloc_topology_diff_t mk_entry(hwloc_topology_t t, int k)
   case H_CHAIN1: d->obj_attr.diff.string.name = strdup("DiffA"); d->obj_attr.diff.string.oldvalue = strdup("one"); d->obj_attr.diff.string.newvalue = strdup("b"); break;
   case H_CHAIN2: d->obj_attr.diff.string.name = strdup("DiffA"); d->obj_attr.diff.string.oldvalue = strdup("b"); d->obj_attr.diff.string.newvalue = strdup("c"); break;
   case H_COMPLEX: d->too_complex.type = HWLOC_TOPOLOGY_DIFF_TOO_COMPLEX; d->too_complex.obj_depth = 0; d->too_complex.obj_index = 0; break;
-  case H_VALID_MEM: d->obj_attr.obj_depth = HWLOC_TYPE_DEPTH_NUMANODE; d->obj_attr.diff.uint64.type = HWLOC_TOPOLOGY_DIFF_OBJ_ATTR_SIZE; d->obj_attr.diff.uint64.oldvalue = nu ? nu->attr->numanode.local_memory : 0; d->obj_attr.diff.uint64.newvalue = 4096 * 7; break;
+  case H_VALID_MEM: d->obj_attr.obj_depth = HWLOC_TYPE_DEPTH_NUMANODE; d->obj_attr.diff.uint64.type = HWLOC_TOPOLOGY_DIFF_OBJ_ATTR_SIZE; d->obj_attr.diff.uint64.oldvalue = MK_MEM0_SET ? MK_MEM0 : (nu ? nu->attr->numanode.local_memory : 0); d->obj_attr.diff.uint64.newvalue = 4096 * 7; break;
   }
   return d;
 }
@@ -244,6 +245,7 @@ static void handbuilt(hwloc_topology_t base)
 {
   int maxlen = 3;
   hwloc_obj_t nu = hwloc_get_obj_by_type(base, HWLOC_OBJ_NUMANODE, 0); hwloc_uint64_t mem0 = nu ? nu->attr->numanode.local_memory : 0;
+  MK_MEM0 = mem0; MK_MEM0_SET = 1;
   uint64_t idx = 0;
   for (int len = 1; len <= maxlen; len++) {
     uint64_t total = 1; for (int i = 0; i < len; i++) total *= H_NENTRIES;
@@ -257,6 +259,18 @@ static void handbuilt(hwloc_topology_t base)
       hwloc_topology_t t = NULL; hwloc_topology_dup(&t, base);
       /* expected: first failing entry in application order (forward: list order) */
       struct hstate st; strcpy(st.a, "one"); strcpy(st.b, "two"); strcpy(st.name, "rootname"); st.mem = mem0;
+      if (reverse) {
+        /* reverse application starts from the state the forward entries lead to (DiffB=2, name=newroot, DiffA=b, memory changed):
+         * from the initial state every reversed entry fails at once and the rollback of a reverse application would never
+         * have anything to undo (seeded change C16-rollback-reverse) */
+        static const int PRE[] = { H_VALID_INFO, H_VALID_NAME, H_CHAIN1, H_VALID_MEM };
+        hwloc_topology_diff_t pf = NULL, pl = NULL;
+        for (unsigned i = 0; i < sizeof(PRE) / sizeof(PRE[0]); i++) { if (PRE[i] == H_VALID_MEM && !nu) continue; hwloc_topology_diff_t e = mk_entry(t, PRE[i]); if (pl) pl->generic.next = e; else pf = e; pl = e; }
+        int prc = hwloc_topology_diff_apply(t, pf, 0);
+        hwloc_topology_diff_destroy(pf);
+        if (prc != 0) { mc_violation("c16.handbuilt.prepare", "%s :: the forward list that prepares the reverse run returns %d", mc_case_text(), prc); hwloc_topology_destroy(t); continue; }
+        strcpy(st.a, "b"); strcpy(st.b, "2"); strcpy(st.name, "newroot"); if (nu) st.mem = 4096 * 7;
+      }
       int expect = 0; for (int i = 0; i < len; i++) if (model_entry(&st, ks[i], reverse, mem0) < 0) { expect = -(i + 1); break; }
       hwloc_topology_diff_t first = NULL, last = NULL;
       for (int i = 0; i < len; i++) { hwloc_topology_diff_t e = mk_entry(t, ks[i]); if (last) last->generic.next = e; else first = e; last = e; }
